@@ -292,6 +292,7 @@ pub fn load_docs() -> Vec<(&'static str, String)> {
         ("syntax-error", format!("{}<AR-PACKAGES>{}</AR-PACKAGES>", h(V50), pk("z8", "<ELEMENTS><CAN-CLUSTER><SHORT-NAME>c</SHORT-NAME></CAN-CLUSTER>"))),
         ("lenient-only", format!("{}<AR-PACKAGES>{}</AR-PACKAGES></AUTOSAR>", h(V50), pk("z7", "<ELEMENTS><CAN-CLUSTER UNKNOWN=\"1\"><SHORT-NAME>c</SHORT-NAME></CAN-CLUSTER></ELEMENTS>"))),
         ("other-version", format!("{}<AR-PACKAGES>{}</AR-PACKAGES></AUTOSAR>", h(V49), pk("z6", "<ELEMENTS/>"))),
+        ("elements-only-in-new-file", format!("{}<AR-PACKAGES>{}{}</AR-PACKAGES></AUTOSAR>", h(V50), pk("a10", "<ELEMENTS><CAN-CLUSTER><SHORT-NAME>k</SHORT-NAME></CAN-CLUSTER></ELEMENTS>"), pk("a1", "<ELEMENTS><CAN-CLUSTER><SHORT-NAME>k</SHORT-NAME></CAN-CLUSTER></ELEMENTS><AR-PACKAGES/>"))),
         ("late-failure", format!("{}<AR-PACKAGES>{}{}</AR-PACKAGES></AUTOSAR>", h(V50), pk("z5", "<ELEMENTS><SYSTEM><SHORT-NAME>ok</SHORT-NAME></SYSTEM></ELEMENTS>"), pk("a", "<ELEMENTS><SYSTEM><SHORT-NAME>c</SHORT-NAME></SYSTEM></ELEMENTS>"))),
     ]
 }
